@@ -21,6 +21,8 @@ def table (text : List Nat) : List (Nat × Nat) :=
 def ev? : Sexp → Option Ev
   | Sexp.atom "pop" => some Ev.pop
   | Sexp.atom "other" => some Ev.other
+  | Sexp.atom "clear" => some Ev.clear
+  | Sexp.atom "drop" => some Ev.dropFront
   | Sexp.list [Sexp.atom "push", r, c] => do
       let r ← r.nat?; let c ← c.nat?
       pure (Ev.push (r, c))
